@@ -42,27 +42,13 @@ def has_cut_in_cond(t, in_cond=False):
         return has_cut_in_cond(a[0], True) or has_cut_in_cond(a[1], in_cond)
     if f in (",", ";") and len(a) == 2:
         return has_cut_in_cond(a[0], in_cond) or has_cut_in_cond(a[1], in_cond)
-    return False
+    return any(has_cut_in_cond(x, False) for x in a)      # arguments of call/N, \\+, once, G = Goal ...
 
 
 def failure_key(prog, q):
     if has_cut_in_cond(q) or any(has_cut_in_cond(b) for _, b in prog):
         return "cut-in-if-then-else-condition-is-not-local"
     return "answers-differ"
-
-
-def static_probe(ctx):
-    """Fixed probe: a clause whose arithmetic contains a statically non-evaluable atom must not break other predicates."""
-    X = S.V("X")
-    prog = [(S.C("sp_p", S.I(1)), S.TRUE), (S.C("sp_e", X), S.C("is", X, S.C("+", S.I(1), S.A("foo"))))]
-    q, t = S.C("sp_p", X), S.C("ans", X)
-    out = S.run_impl(ctx.prop, [{"id": "probe", "text": S.program_text(prog), "queries": [(q, t)], "fresh": True}], tag="probe")
-    o = out["probe"][0]
-    if o[0] == "ok" and o[1] == [S.normt(S.C("ans", S.I(1)))] and o[2] is None:
-        return None
-    return {"key": "consult-static-nonevaluable-arith-breaks-machine",
-            "what": "after consulting a clause whose arithmetic expression contains a non-evaluable atom, a query on another predicate does not give its answers",
-            "input": S.program_text(prog) + "?- " + S.query_text(q, t), "impl": repr(o)[:400], "spec": "Ans__ = ans(1)", "property_fails": True}
 
 
 def run(ctx):
@@ -85,14 +71,9 @@ def run(ctx):
         if not queries:
             dist["regenerated_too_big"] += 1
             continue
-        wrappers = [(S.C(pfx + "q%d" % i, S.V("A__")), S.conj([S.C("=", S.V("A__"), t), q])) for i, (q, t) in enumerate(queries)]
-        text = S.program_text(prog + wrappers)
-        jq = []
-        for i, (q, t) in enumerate(queries):
-            jq.append((q, t))
-            jq.append((S.C(pfx + "q%d" % i, S.V("W__")), S.V("W__")))
+        text = S.program_text(prog)
         jid = "j%d" % len(jobs)
-        jobs.append({"id": jid, "text": text, "queries": jq})
+        jobs.append({"id": jid, "text": text, "queries": queries})
         meta[jid] = (prog, queries)
         if g.ncut_cond: dist["cut_in_cond_programs"] += 1
     dist["programs"] = len(jobs)
@@ -106,7 +87,7 @@ def run(ctx):
         defs[pname] = ("program", S.program_coq(prog))
         for i, (q, t) in enumerate(queries):
             seen = []
-            for path, o in (("query", obs[j["id"]][2 * i]), ("compiled-wrapper", obs[j["id"]][2 * i + 1])):
+            for path, o in sorted(obs[j["id"]][i].items()):
                 if o[0] == "panic":
                     # the answer channel panics on cyclic bindings: only a panic on a run the model completes is reported
                     exprs.append(S.check_expr(pname, q, t, ("ok", [], None, [])))
@@ -132,6 +113,7 @@ def run(ctx):
         if c == 2: dist["dropped_model_nofuel"] += 1; continue
         if c == 3: dist["dropped_model_cyclic_or_unsupported"] += 1; continue
         if c == 4: dist["dropped_model_many_answers"] += 1; continue
+        if c == 5: dist["prefix_only_ambiguous_arith_error"] = dist.get("prefix_only_ambiguous_arith_error", 0) + 1; evaluations += 1; continue
         evaluations += 1
         prog, queries = meta[jid]
         q, t = queries[i]
@@ -160,13 +142,11 @@ def run(ctx):
         failures.append({"key": key, "what": "ordered answers / exception of the implementation differ from ISO depth-first resolution (%s path)" % path,
                          "input": S.program_text(prog) + "?- " + S.query_text(q, t),
                          "impl": "answers=%s ball=%s" % ([S.pl(a) for a in o[1]], S.pl(o[2]) if o[2] else None), "spec": spec[:1500], "property_fails": True})
-    pf = static_probe(ctx)
-    if pf: failures.append(pf)
     dist["disagreements"] = len(bad)
     samples = []
     for j in jobs[:3]:
         prog, queries = meta[j["id"]]
-        o = obs[j["id"]][0]
+        o = obs[j["id"]][0]["clause"]
         samples.append({"program": S.program_text(prog), "query": S.query_text(*queries[0]), "impl": repr(o)[:200]})
     return {"evaluations": evaluations, "distinct_nontrivial": len(nontrivial),
             "rule": ("random programs (2-4 predicates with an acyclic call graph + recursive append/member/length helpers, 1-4 clauses each, bodies of 1-4 goals, "
